@@ -366,6 +366,140 @@ theorem loaded_shape (swap : Bool) (a b : Rat) (f : File) (F : Forecast) (hl : l
   simp only [loadOk, Bool.and_eq_true, decide_eq_true_eq] at hok
   simpa [build] using hok.2
 
+/-! ### the map ("cartesian") layout of the spatial marginal: `spatial_counts(cartesian=True)` -/
+
+/-- the forecast after a history is the loaded forecast with the last factor in force -/
+theorem spatialCounts_runOps (F : Forecast) (ops : List ScaleOp) :
+    spatialCounts (runOps F ops) = (spatialCounts { F with scale := 1 }).map (· * lastFactor F.scale ops) := by
+  obtain ⟨h1, h2, h3, h4⟩ := runOps_base_scale F ops
+  rw [← spatialCounts_scale F (lastFactor F.scale ops)]
+  simp only [spatialCounts, rowsOf, data, h1, h2, h3, h4]
+
+/-- **the map layout is scaled absolutely too**: after any history of scale calls every node of
+    `spatial_counts(cartesian=True)` is the node of the unscaled forecast times the factor in force (NaN stays NaN) -/
+theorem cartesian_scale_absolute (F : Forecast) (ops : List ScaleOp) (pos : List (Nat × Nat)) (ny nx : Nat) :
+    spatialCountsCartesian (runOps F ops) pos ny nx =
+      (spatialCountsCartesian { F with scale := 1 } pos ny nx).map
+        (List.map (Option.map (· * lastFactor F.scale ops))) := by
+  obtain ⟨_, _, h3, _⟩ := runOps_base_scale F ops
+  simp only [spatialCountsCartesian, getCartesian, spatialCounts_runOps, h3, List.map_map]
+  apply List.map_congr_left
+  intro i _
+  simp only [Function.comp_apply, List.map_map]
+  apply List.map_congr_left
+  intro j _
+  simp only [Function.comp_apply]
+  cases cartIdx F.cells pos i j with
+  | none => rfl
+  | some k => simp [List.getElem?_map]
+
+/-- node (i, j) shows the spatial count of cell `k` when `k` is the cell hashed there and its flag is 1
+    (`some (some x)`: the node exists and holds the number `x`) -/
+theorem cartesian_entry (F : Forecast) (pos : List (Nat × Nat)) (ny nx k i j : Nat) (c : Cell)
+    (hnd : ((F.cells.zip pos).map Prod.snd).Nodup) (hk : (F.cells.zip pos)[k]? = some (c, (i, j))) (hf : c.flag = 1)
+    (hi : i < ny) (hj : j < nx) :
+    (spatialCountsCartesian F pos ny nx)[i]?.bind (·[j]?) = some ((spatialCounts F)[k]?) := by
+  have hc : cartIdx F.cells pos i j = some k := by
+    unfold cartIdx
+    rw [hashLoop_hit (i, j) _ 0 (false, none) k c hnd hk]
+    simp [hf]
+  simp [spatialCountsCartesian, getCartesian, hi, hj, hc]
+
+/-- a node to which only cells with a flag other than 1 (or no cell at all) are hashed shows NaN -/
+theorem cartesian_masked (F : Forecast) (pos : List (Nat × Nat)) (ny nx i j : Nat)
+    (h : ∀ e ∈ F.cells.zip pos, e.2 = (i, j) → e.1.flag ≠ 1) (hi : i < ny) (hj : j < nx) :
+    (spatialCountsCartesian F pos ny nx)[i]?.bind (·[j]?) = some none := by
+  have hc : cartIdx F.cells pos i j = none := by
+    unfold cartIdx
+    simp [hashLoop_mask (i, j) _ 0 (false, none) h]
+  simp [spatialCountsCartesian, getCartesian, hi, hj, hc]
+
+/-- **the map layout sums to the spatial marginal of the cells inside the region** (`numpy.nansum`), whatever the
+    factor in force: distinct cells on distinct nodes of the ny × nx lattice -/
+theorem cartesian_nansum (F : Forecast) (pos : List (Nat × Nat)) (ny nx : Nat)
+    (hnd : ((F.cells.zip pos).map Prod.snd).Nodup) (hin : ∀ e ∈ F.cells.zip pos, e.2.1 < ny ∧ e.2.2 < nx) :
+    nansum (spatialCountsCartesian F pos ny nx) = flaggedSum (F.cells.zip pos) (spatialCounts F) := by
+  have h0 : nansum (spatialCountsCartesian F pos ny nx)
+      = gridSum ny nx (fun p => shown (spatialCounts F) (hashLoop p (F.cells.zip pos) 0 (false, none))) := by
+    simp only [nansum, spatialCountsCartesian, getCartesian, gridSum, List.map_map, Function.comp_def, shown, cartIdx]
+  rw [h0]
+  have h1 : (fun p => shown (spatialCounts F) (hashLoop p (F.cells.zip pos) 0 (false, none)))
+      = valAt (F.cells.zip pos) (spatialCounts F) := by
+    funext p
+    rw [shown_hashLoop p _ 0 (false, none) _ hnd rfl]
+    simp
+  rw [h1]
+  exact gridSum_valAt ny nx _ _ hin
+
+/-- … and to the total expected count when no cell is flagged out -/
+theorem cartesian_sum_total (F : Forecast) (pos : List (Nat × Nat)) (ny nx : Nat)
+    (hshape : F.base.length = F.cells.length * F.mags.length) (hlen : pos.length = F.cells.length) (hnd : pos.Nodup)
+    (hin : ∀ p ∈ pos, p.1 < ny ∧ p.2 < nx) (hflags : ∀ c ∈ F.cells, c.flag = 1) :
+    nansum (spatialCountsCartesian F pos ny nx) = total F := by
+  have hsnd : (F.cells.zip pos).map Prod.snd = pos := List.map_snd_zip (by omega)
+  rw [cartesian_nansum F pos ny nx (by rw [hsnd]; exact hnd)
+    (fun e he => hin e.2 (List.of_mem_zip (a := e.1) (b := e.2) he).2)]
+  have hl : (spatialCounts F).length = (F.cells.zip pos).length := by
+    simp only [spatialCounts, rowsOf, List.length_map, List.length_zip, hlen, Nat.min_self]
+    exact chunks_count _ _ _
+  rw [flaggedSum_all _ _ (fun e he => hflags e.1 (List.of_mem_zip (a := e.1) (b := e.2) he).1) hl]
+  exact (marginals_sum F hshape).1
+
+/-! ### calls that only read the forecast -/
+
+theorem runCalls_fst (E : Env) (cs : List Call) (st : Forecast × List Obs) :
+    (cs.foldl (stepCall E) st).1 = runOps st.1 (writesOf cs) := by
+  induction cs generalizing st with
+  | nil => rfl
+  | cons c cs ih =>
+    rw [List.foldl_cons, ih]
+    cases c with
+    | write o => simp [stepCall, writesOf, runOps]
+    | read r => simp [stepCall, writesOf]
+
+/-- **reading does not change the forecast.** After any history in which `target_event_rates(scale=True/False)`,
+    `get_rates`, `sum`, `spatial_counts` (either layout), `magnitude_counts`, `data` are called between the scale
+    calls, the forecast is the one the scale calls alone produce -/
+theorem reads_leave_forecast (E : Env) (F : Forecast) (cs : List Call) :
+    (runCalls E F cs).1 = runOps F (writesOf cs) := runCalls_fst E cs (F, [])
+
+/-- hence the data are still base × the last factor set by a scale call -/
+theorem reads_leave_data (E : Env) (F : Forecast) (cs : List Call) :
+    data (runCalls E F cs).1 = F.base.map (· * lastFactor F.scale (writesOf cs)) := by
+  rw [reads_leave_forecast, scale_absolute]
+
+/-- what a read-only call returns depends only on the scale calls before it (not on earlier reads, not on how often
+    it was asked) -/
+theorem read_observation (E : Env) (F : Forecast) (pre : List Call) (r : Read) :
+    (runCalls E F (pre ++ [.read r])).2 = (runCalls E F pre).2 ++ [observe E (runOps F (writesOf pre)) r] := by
+  simp only [runCalls, List.foldl_append, List.foldl_cons, List.foldl_nil, stepCall]
+  rw [runCalls_fst]
+
+/-- asking twice gives the same answer twice -/
+theorem read_twice_same (E : Env) (F : Forecast) (pre : List Call) (r : Read) :
+    (runCalls E F (pre ++ [.read r, .read r])).2 =
+      (runCalls E F pre).2 ++ [observe E (runOps F (writesOf pre)) r, observe E (runOps F (writesOf pre)) r] := by
+  simp only [runCalls, List.foldl_append, List.foldl_cons, List.foldl_nil, stepCall]
+  rw [runCalls_fst]
+  simp
+
+/-- `target_event_rates(catalog, scale=True)` after a history: base rate × factor in force / days, for every target
+    event the unscaled forecast has a rate for; the reported total is total / days -/
+theorem target_rates_runOps (F : Forecast) (ops : List ScaleOp) (d : Rat) (pts : List (Rat × Rat × Rat))
+    (xs : List Rat) (h : pts.map (fun p => getRates { F with scale := 1 } p.1 p.2.1 p.2.2) = xs.map some) :
+    (targetEventRates (runOps F ops) (some d) pts).1 = xs.map (fun x => some (x * lastFactor F.scale ops / d)) ∧
+    (targetEventRates (runOps F ops) (some d) pts).2 = total (runOps F ops) / d := by
+  refine ⟨?_, rfl⟩
+  simp only [targetEventRates, Option.getD_some]
+  induction pts generalizing xs with
+  | nil => cases xs <;> simp_all
+  | cons p pts ih =>
+    cases xs with
+    | nil => simp at h
+    | cons x xs =>
+      simp only [List.map_cons, List.cons.injEq] at h ⊢
+      exact ⟨by rw [getRates_runOps F ops _ _ _ x h.1]; rfl, ih xs h.2⟩
+
 /-! ### non-vacuity -/
 section Examples
 /-- two cells (second one flagged 0, listed first), two magnitude bins -/
@@ -384,6 +518,16 @@ example : (load false 10 (101/10) exFile).bind (fun F => getRates F (-95/10) 10 
   decide +kernel
 example : (load false 10 (101/10) exFile).map (fun F => data (runOps F [.scale 2, .toTestDate none, .scale 3]))
     = some [9/1000, 12/1000, 3/1000, 6/1000] := by decide +kernel
+-- the map layout of the example: the flagged cell (listed first, east) shows NaN, the other its spatial count x factor
+example : (load false 10 (101/10) exFile).map (fun F => spatialCountsCartesian (runOps F [.scale 2]) [(0, 1), (0, 0)] 1 2)
+    = some [[some (6/1000), none]] := by decide +kernel
+-- read-only calls between scale calls: target_event_rates(scale=True) over 30 days at the lower corner, twice, then scale(3)
+example : (load false 10 (101/10) exFile).map (fun F =>
+      let r := runCalls ⟨[(-96/10, 10, 505/100)], [(0, 1), (0, 0)], 1, 2⟩ F
+        [.read (.targetRates (some 30)), .read (.targetRates (some 30)), .write (.scale 3), .read .rates]
+      (r.2, data r.1))
+    = some ([.rates [some (2/30000)] (some (10/30000)), .rates [some (2/30000)] (some (10/30000)), .rates [some (6/1000)] none],
+            [9/1000, 12/1000, 3/1000, 6/1000]) := by decide +kernel
 end Examples
 
 end ForecastFile
